@@ -83,8 +83,8 @@ pub fn observe(initial: usize, max: usize, conns: usize, tag: &str) -> (usize, u
     (in_service, pk)
 }
 
-pub fn execute_step<S: Src>(s: &mut S) -> Outcome {
-    let sc = draw(s, 5);
+pub fn execute_step<S: Src>(s: &mut S, bound: u8) -> Outcome {
+    let sc = draw(s, bound);
     let (w, max, o) = (sc.workers as usize, sc.max as usize, sc.outstanding as usize);
     let conns = o + 1;
     let want = if conns < max { conns } else { max };
